@@ -735,6 +735,7 @@ class Gen:
         # import statements that interfere with each other (the generator's knowledge of the text, nothing about the analysis):
         #  - a name bound by `from pk.m import N` after a plain dotted `import pk.m` of the same module in the same file
         #  - a name whose symbol (module, function, class) is imported again later in the same file under a different name
+        #  - a module name bound by a plain absolute `import x[.y]` in a file that lives in a sub-directory
         interference = {}
         for m in self.mods:
             dotted = set()
@@ -745,6 +746,9 @@ class Gen:
                     sym, name = parts[1], (parts[3] if len(parts) == 4 else parts[1].split(".")[0])
                     if "." in parts[1] and len(parts) == 2:
                         dotted.add(parts[1])
+                    if m.dirs:
+                        # absolute `import x.y` written in a file of a sub-directory: x is not a sibling of that file
+                        interference.setdefault(m.relpath, {}).setdefault(name, "bound-by-plain-import-of-a-non-sibling-module")
                 else:
                     sym, name = parts[1] + "." + parts[3], parts[-1]
                     if parts[1] in dotted:
@@ -753,8 +757,8 @@ class Gen:
                 if name not in bound[sym]:
                     bound[sym].append(name)
             for sym, names in bound.items():
-                for n in names[:-1]:
-                    interference.setdefault(m.relpath, {}).setdefault(n, "overwritten-by-later-import-of-the-same-symbol")
+                for n in names[:-1]:           # takes precedence over the other two reasons
+                    interference.setdefault(m.relpath, {})[n] = "overwritten-by-later-import-of-the-same-symbol"
         for s_ in sites:
             s_["deps"] = [placed[id(d)] for d in s_.get("deps", []) if id(d) in placed]
         classes = {}
@@ -794,6 +798,7 @@ VALUE_KINDS = ("callback-parameter", "returned-function", "returned-closure", "f
                "function-in-list-loop", "function-in-dict", "function-in-field", "function-in-field-via-self",
                "function-in-field-reassigned")
 ATTRIBUTE_FORMS = ("module-attribute", "package-attribute", "aliased-package-attribute")
+OWN_MECHANISM = ("super-init-call", "function-in-field-via-self", "returned-function")
 
 
 def _interference(project, ref):
@@ -894,6 +899,16 @@ def event_kind(project, site, callee_qual, recv_classes=(), under_try=False, cal
     classes = project["classes"]
     ctrl = (f"[{site['ctrl']}]" if site["ctrl"] == "after-try" else f"[in-{site['ctrl']}]") if site.get("ctrl") else ""
     ptag = provenance_tag(project, site, callee_qual, recv_classes, under_try, caller_cls)
+    # kinds whose resolution needs more than finding a name and walking the class hierarchy (a value returned by a call, a value
+    # kept in a field of self, super(), dynamic dispatch on self) are named by the kind alone: how the names involved were
+    # imported is secondary there
+    if kind in OWN_MECHANISM:
+        return kind
+    if kind == "self-method" and callee_qual.split(".")[0] != site["recv"] and callee_qual.split(".")[0] not in ancestors(classes, site["recv"]):
+        if ptag not in ("under-try", "receiver-class-without-constructor"):
+            ptag = "receiver-class-without-constructor" if any(
+                classes.get(rc, {}).get("init") == "no-init" for rc in recv_classes or ()) and all(
+                classes.get(rc, {}).get("init") == "no-init" for rc in recv_classes or ()) else ("under-try" if under_try else None)
     if (site.get("uses") or {}).get("form", "local") != "local":
         ctrl = ""                  # the access form is the kind; the control context is not refined further
         if ptag == "under-try":
